@@ -92,7 +92,9 @@ func DriverMain(spec PropSpec, tier string, seed uint64) int {
 	os.RemoveAll(filepath.Join(root(), "replays", spec.ID))
 	a := &agg{counters: map[string]int64{}, lists: map[string]map[string]int64{}, phSamples: map[string]int{}, nt: map[uint64]struct{}{}, viol: map[string]*violAgg{}}
 	for _, ph := range spec.Phases {
+		tp := time.Now()
 		runPhase(spec, ph, tier, seed, work, a)
+		fmt.Printf("  phase %-14s %.1fs\n", ph.Name, time.Since(tp).Seconds())
 	}
 	known := LoadFindings(filepath.Join(root(), "known_findings.txt"), spec.ID)
 	exit := 0
